@@ -31,7 +31,7 @@ def ordered_subset(draw, attrs, min_size=1, max_size=None):
 def clique_sets(draw, attrs, max_cliques=6, max_clique_size=4, min_cliques=0):
     """A list of cliques (each an ordered list of attribute names) from a mixture of shapes."""
     n = len(attrs)
-    shape = draw(st.sampled_from(['free', 'free', 'chain', 'star', 'cycle', 'complete', 'twocomp', 'nested', 'dup']))
+    shape = draw(st.sampled_from(['free', 'free', 'chain', 'star', 'cycle', 'complete', 'twocomp', 'nested', 'dup', 'tree']))
     perm = list(draw(st.permutations(list(attrs))))
     cl = []
     if shape == 'free' or n < 2:
@@ -41,6 +41,9 @@ def clique_sets(draw, attrs, max_cliques=6, max_clique_size=4, min_cliques=0):
         cl = [[perm[i], perm[i + 1]] for i in range(n - 1)]
     elif shape == 'star':
         cl = [[perm[0], perm[i]] for i in range(1, n)]
+    elif shape == 'tree':
+        # random recursive tree: branching nodes with arms of unequal depth
+        cl = [[perm[draw(st.integers(0, i - 1))], perm[i]] for i in range(1, n)]
     elif shape == 'cycle':
         cl = [[perm[i], perm[(i + 1) % n]] for i in range(n)] if n >= 3 else [[perm[0], perm[1]]]
     elif shape == 'complete':
